@@ -52,6 +52,7 @@ const PAYEES: &[&str] = &[
     "31415 92653",
     "27182",
     "Postcard  stamps",
+    "REF A(1 Bakery",
 ];
 
 const HOSTILE: &[&str] = &[
@@ -80,6 +81,7 @@ const HOSTILE: &[&str] = &[
     "\u{2003}em space around\u{2003}",
     "line separator\u{2028}inside",
     "next line\u{85}",
+    "REF B(2((x Cafe",
 ];
 
 const CATEGORIES: &[&str] = &["Buy", "Sell", "Reinvest Dividend", "Groceries", "Credit Interest", ""];
@@ -113,6 +115,7 @@ fn gen_rules(rng: &mut Rng, rich: bool, has_category: bool, has_sec: bool) -> Ve
         "(?P<payee>[A-Z]+) AG",
         "Wire(?P<code>\\d*) (?P<payee>.*)",
         "(?P<code>x?)(?P<payee>Migros.*)",
+        "REF (?P<code>\\S+) (?P<payee>.*)",
     ];
     let accounts = [
         "Expenses:Grocery",
@@ -313,6 +316,11 @@ fn gen_sc(rng: &mut Rng, flavour: u8) -> Sc {
                 precisions.insert(c.to_string(), (*d + rng.below(2) as u32) as u8);
             }
         }
+    }
+    if hostile && rng.chance(1, 5) {
+        // a token with 18 or more decimals: padding a large amount to it needs more digits than a
+        // decimal holds, and what is printed must still read back
+        precisions.insert(primary.to_string(), (18 + rng.below(11)) as u8);
     }
     let fmt = Fmt {
         date: date_fmt,
@@ -685,9 +693,11 @@ fn import_statement(sc: &Sc, k: usize, out: &mut RunOut, rule_prefix: &str) -> O
     }
     let files = Rc::new(files);
     let no_faults = Default::default();
-    let today = Date::new(2024, 6, 15);
+    // each process runs on the date of one of the statement's rows (a function of the tape)
+    let days: Vec<Date> = sc.statements[k].iter().map(|r| r.date).collect();
     let mut first: Option<Result<Imported, String>> = None;
     for (pi, p) in sc.procs.iter().enumerate() {
+        let today = if days.is_empty() { Date::new(2024, 6, 15) } else { days[(p.hash_seed % days.len() as u64) as usize] };
         out.set("hash_orders", hash_order_canary(p.hash_seed));
         if p.read_chunks.max > 0 {
             out.set("chunkings", crate::prng::mix(&[p.read_chunks.max as u64, p.read_chunks.seed]));
